@@ -61,6 +61,23 @@ def gen_cases(tier, seed):
         rng = gen.rng_for("C04", seed, i)
         node = rng.random() < 0.2
         base = I.cyc_node_base(rng, wt="int", max_edges=8) if node else I.cyc_edge_base(rng, wt="int", max_edges=10 if tier == "quick" else 11)
+        if not node and rng.random() < 0.1:
+            # a hub on ONE long cycle, entered from several sources and left to several sinks: sequences that start and end in the hub (closed
+            # safe sequences) occur, and reachability FROM the hub and TO the hub are asked for the same node
+            L = rng.choice([3, 5, 5, 6]); ns = rng.randint(2, 3)
+            cn = ["h"] + [f"c{j}" for j in range(1, L)]; ce = list(zip(cn, cn[1:] + ["h"]))
+            wts = [rng.randint(1, 3) for _ in range(ns)]; rounds = [rng.choice([0, 1, 3]) for _ in range(ns)]
+            if not any(rounds):
+                rounds[0] = rng.choice([1, 3])
+            fl = {}; planted_ = []
+            for i_ in range(ns):
+                wk = [f"s{i_}", "h"] + (cn[1:] + ["h"]) * rounds[i_] + [f"t{i_}"]
+                planted_.append((wk, wts[i_]))
+                for e in zip(wk, wk[1:]):
+                    fl[e] = fl.get(e, 0) + wts[i_]
+            eds = [(f"s{i_}", "h") for i_ in range(ns)] + ce + [("h", f"t{i_}") for i_ in range(ns)]
+            rng.shuffle(eds)
+            base = {"nodes": [f"s{i_}" for i_ in range(ns)] + cn + [f"t{i_}" for i_ in range(ns)], "edges": eds, "flow": {e: fl[e] for e in eds}, "planted": planted_, "wt": "int", "mode": "edge", "noise": {}}
         c = {"kind": "opt", "mode": base["mode"], "cons": [], "cov": 1.0, "ignore": [], "oo": rng.choice(OPTS), "starts": [], "ends": [], "planted": len(base["planted"])}
         drop = []; garbage = {}
         if rng.random() < 0.3 and base["planted"]:
